@@ -538,7 +538,10 @@ def run(ctx):
             if len(chosen) == 1 and rng.random() < 0.6:
                 # two different references that are never visible together get one name (legal: separate scopes)
                 rename = g.shared_names(ast)
-                if rename:
+                inner = {n[2]: env.build(n[1]) for _, n in g.walk(ast) if n[0] == 'reference'}
+                # (two references of equal content under one name would be one and the same object: an advert of either
+                # covers both, which the AST-level coverage oracle does not model)
+                if rename and all(inner[old] != inner[new] for old, new in rename.items()):
                     ctx.count('shared_reference_name_cases')
                     spec['rename'] = rename
             run_case(ctx, env, spec)
